@@ -429,6 +429,9 @@ def handle_in(c, base):
         m = oracle(fo, fo, 'complete run, file %d' % i)
         if m:
             msgs.append(m)
+    if any(not fo['open'] for fo in fulls):
+        return {'res': '__none__', 'ok': False, 'msg': '; '.join(msgs[:3]), 'sig': 'complete-run-unreadable',
+                'kind': '%s/%dfile' % (c['driver']['type'], nf), 'stats': {'crash_points': 1}}
     starts = [started_index(t) for t in per_file]
     ks_file = [[] for _ in range(nf)]
     codes = [[] for _ in range(nf)]
